@@ -75,7 +75,7 @@ func FormatState(vars map[string]any) string {
 	return sb.String()
 }
 
-const maxKeep = 400   // mismatches kept in full
+const maxKeep = 400    // mismatches kept in full
 const perSiteKeep = 25 // per site
 
 // Replay runs every state of the dump through the family.
